@@ -214,12 +214,12 @@ CLAIMED = {
 ADD = {
  "C14": " Added: explicit values and positions are read as decimal integers (ParseInt repaired).",
  "C15": " Added: the assumed contracts of strconv.ParseUint / ParseInt carry the base, so ParseInt's clause pins the decimal reading (the defect this exposed is repaired); asRangeInt under contract.",
- "C10": " Added: ParseInt reads decimal integers only; the assumed contracts of strconv carry the base; fixed texts in the stand-in (010..020 = 10..20; 0x10, 1_000, '.', '1.', '.5' refused).",
+ "C10": " Added: ParseInt reads decimal integers only; the assumed contracts of strconv carry the base; fixed texts in the stand-in (010..020 = 10..20; 0x10, 1_000, '.', '1.', '.5' refused). In Type.resolve the call sites of parseChildRanges are under assertion (a range narrows the range inherited so far, a length the length inherited so far, each from the type derived from or the base type's own); the stand-in also builds schema-level chains with pass-through typedefs.",
  "C01": " Added: the cursor of the string state of the lexer stays inside the input also after the error budget emptied it (adderror proved, ErrorfAt/emitText assumed because they send on the token channel), Entry.Modules / InstantiatingModule / Find no longer assume a tree rooted in a module (a grouping tree handed out by StoreUses is read back too); the corpus has 94 inputs, each with and without StoreUses, read back through Find, FindNode, Modules, Augmented. A method call on an interface without contract also gets a nil-receiver obligation; asRangeInt hands out a value of the range asked for or nothing.",
  "C02": " Added: pattern mode is on for the argument of a pattern statement only (call-site assertions in parser.nextStatement); the stand-in writes tabs before the opening quote and inside comments, pattern blocks, '+/' tokens and comment-opener corner cases.",
  "C03": " Added: isPrefixedKeyword under contract; the stand-in also offers words that are no keyword at all (the names of the fields every node has, ':x', 'x:') under module, submodule, input and an unnamed container, and every single-fault text again on a set that has just refused other texts.",
  "C04": " Added: the case FixChoice implies is a plain case (no list attributes, type, rpc part, key or errors); every augment of a pass is merged, refused with an error, reported or kept (ghost call counters), never silently skipped; the stand-in walks every module by object (two revisions of one name are two trees), shorthand lists and leaf-lists under choices, augments whose body is a missing grouping, bare actions.",
- "C05": " Added: a fixed set with the same identity in two revisions of one module (an open finding: KNOWN-FINDING line, see C11). errorSort is under contract: every sorted error is kept or deeply equal to the one kept last, what is kept stays, a list of at most one error comes back as it is (sort.Sort and reflect.DeepEqual assumed).",
+ "C05": " Added: a fixed set with the same identity in two revisions of one module (an open finding: KNOWN-FINDING line, see C11). errorSort is under contract: every sorted error is kept or deeply equal to the one kept last, what is kept stays, a list of at most one error comes back as it is (sort.Sort and reflect.DeepEqual assumed). Augments are applied module by module in the order of the modules' full names (fix recorded); the stand-in loads sets in which two modules bring the same node to one target, in every load order, and compares what is refused.",
  "C06": " Added: fixed cases for the extension list of a uses entry (own array per use) and for a prefix that only an included submodule binds (must be an error). Repaired on the way: a grouping defined inside grouping k may use k; a submodule uses the groupings of its module.",
  "C07": " Added: merge is called only when none of the augment's names is taken in the target (never half applied; taken / refuse under contract), not for anydata / anyxml targets; every augment of a pass is merged, refused, reported or kept (ghost call counters). Process's augment loops are under contract as well: every module still listed gets a pass in every round, is dropped from the list exactly when none of its augments was left over, and what is left at the end gets the pass that reports.",
  "C08": " Added: the loop may also write the rpc input/output of the target's parent (not-supported on an rpc's input or output); fixed cases for that and for two revisions of one deviating module (both applied, in every run). Now also proved: the values written by the loop (config, mandatory, defaults on replace / add / delete, element bounds, units, type) are those of the deviate statement, per iteration. writtenBefore orders by line and then by column (two deviate statements on one line are in written order).",
